@@ -154,6 +154,7 @@ fn main() {
         match parts[0] {
             "seq" => case_seq(&parts[1..]),
             "conc" => conc::case_conc(&parts[1..]),
+            "uconc" => conc::case_uconc(&parts[1..]),
             other => panic!("unknown case kind {}", other),
         }
     });
